@@ -616,6 +616,15 @@ def rule_g(ctx):
                 bad.append(f"{case}: the rotation is not updated")
             if not given["rotation"] and (r_ != "R0" or ri_ != "RI0"):
                 bad.append(f"{case}: the rotation changes although none was passed")
+    # named contradiction, independent of the fold: a parameter re-bound to a value-changing function of itself before it is used (angles
+    # clipped to a range, a scaling made positive): the stored map is that of other parameters than the ones passed.  (Reducing an angle modulo a
+    # full turn keeps the rotation and is not in this list.)
+    CHANGING = ("np.clip", "np.minimum", "np.maximum", "np.abs", "np.absolute", "abs", "np.round", "np.floor", "np.ceil", "np.sign", "min", "max", "round")
+    for s_ in ast.walk(f.node):
+        if isinstance(s_, ast.Assign) and len(s_.targets) == 1 and isinstance(s_.targets[0], ast.Name) and s_.targets[0].id in f.params[1:] and isinstance(s_.value, ast.Call) \
+                and norm(s_.value.func) in CHANGING and s_.targets[0].id in {x.id for x in ast.walk(s_.value) if isinstance(x, ast.Name)}:
+            bad.append(f"`{norm(s_)[:70]}` replaces the passed {s_.targets[0].id} by another value before it is stored / used: set_parameters({s_.targets[0].id}=v) no longer gives the map of v "
+                       "(an angle beyond the range becomes the bound: 3*pi/2 turns into a half turn)")
     if und and not bad:
         ctx.ob(R, f.qname, "each passed parameter is stored, each omitted one is kept (all subsets, 2-d and 3-d)", False, "", f.node)
     else:
@@ -645,6 +654,8 @@ def run(ctx):
         f_, img_b_, sem_ = c10.rule_a(ctx_)
         c10.rule_c(ctx_, f_, img_b_, sem_)
     shared(ctx, "C09.e", workflow, why="CoordinateTransformation / TransformationCorrection act on images only through BaseCorrection.__call__")
+    from ..effects import Effects as _Eff
+    ctx.guard(shared, ctx, "C09.d", c10.rule_f, _Eff(ctx.model), why="a warped array that is kept on the correction object and handed out again is overwritten by the next call: earlier results and the slices of a series become the last warp")
     # pulled-back points become source voxels through CoordinateSystem.voxel / coordinate (typed conversions of the point classes): a
     # correction whose map is the identity returns the input only if these maps follow the axis table in every dimension
     shared(ctx, "C09.d", c01_rule_b, why="TransformationCorrection.correct_array converts destination voxels and pulled-back points through CoordinateSystem.coordinate / voxel")
